@@ -90,5 +90,26 @@ theorem run_range {P : Nat} (m1 m2 : MA) (period1 : Nat) (zone : ℚ) (k0 : Cand
     cs [] s0 ⟨_, _, _, _, _, init_every_kind m1 m2 period1 zone k0 s0 h1 h2 h0, by simp⟩
   exact ⟨os, s', hr, hlen, fun i hi => hout i hi⟩
 
+/-- ADX from its constructor, EVERY pair of kinds: no step of any candle stream panics -/
+theorem run_ok {P : Nat} (m1 m2 : MA) (period1 : Nat) (zone : ℚ) (k0 : Candle ℚ) (s0 : ADX)
+    (h1 : validLen P m1.kind m1.length) (h2 : validLen P m2.kind m2.length)
+    (h0 : ADX.init P m1 m2 period1 zone k0 = .ok s0) (cs : List (Candle ℚ)) :
+    ∃ outs s', runM ADX.step s0 cs = .ok (outs, s') ∧ outs.length = cs.length := by
+  obtain ⟨os, s', hr, _, hlen, _⟩ := runM_invariant ADX.step
+    (fun _ s => ∃ hc trs pdms mdms ts, Inv P period1 (specOf m1.kind m1.length (k0.trClose k0.close)) (specOf m1.kind m1.length 0)
+      (specOf m1.kind m1.length 0) (specOf m2.kind m2.length 0) hc trs pdms mdms ts s)
+    (fun _ _ => True)
+    (by
+      rintro _ s k ⟨hc, trs, pdms, mdms, ts, hi⟩
+      obtain ⟨prev, _, hz, hnz⟩ := vals_spec k hi
+      by_cases htr : specOf m1.kind m1.length (k0.trClose k0.close) (trs ++ [k.trClose s.prev_close]) = 0
+      · obtain ⟨v, s1, hv, _, _, hi1⟩ := hz htr
+        exact ⟨v, s1, by simp [ADX.step, hv], ⟨_, _, _, _, _, hi1⟩, trivial⟩
+      · obtain ⟨v, s1, hv, _, _, hi1⟩ := hnz htr
+        exact ⟨v, s1, by simp [ADX.step, hv], ⟨_, _, _, _, _, hi1⟩, trivial⟩)
+    cs [] s0 ⟨_, _, _, _, _, init_every_kind m1 m2 period1 zone k0 s0 h1 h2 h0⟩
+  exact ⟨os, s', hr, hlen⟩
+
+
 end ADX
 end Yata.Ind
